@@ -43,7 +43,8 @@ META = {
              "whose atoms carry their own residue name, one per arrangement over three residues; 30%: residues carrying an attribute and copies of links that state it on one "
              "atom, with their own parameters) x residue graphs of 1-7 residues (path/tree/ring, mixed names, permuted "
              "keys); non-trivial = at least one link applied and at least one link or window not applicable; distinct by "
-             "(force-field text, graph)"),
+             "(force-field text, graph)"
+             "; directed / added families (waves 10-12): links around an atom removal in every definition order; self-vetoing links (non-edge / pattern on their own result)"),
 }
 
 PRELUDE = """From PV Require Import Links.
